@@ -41,7 +41,7 @@ def run(ctx):
     ctx.add("transitions", r["generated"])
     s, unpriv = _run_replay(ctx, [r["out"]])
     ctx.note(f"fstree_replay: {s['evaluations']} deletions, {len(s['mismatches'])} mismatches, euid {s['extra']['euid']}")
-    if s["evaluations"] < 2000:
+    if s["evaluations"] < 4000:
         raise vlib.ToolError("too few trees were replayed")
     vlib.take_summary(ctx, s, "fstree_replay")
     ctx.add("evaluations", s["evaluations"])
